@@ -124,3 +124,46 @@ def reply_padding(c, L, pad):
         pass
     c.check("data" in seen and all_of([len(seen["data"]) == L - pad, seq_eq(refs.cat(seen["data"]), stub[: L - pad])]), "exactly pad_length bytes stripped")
     return L - pad
+
+
+@harness(P, per_job=True, params=lambda tier: [dict(vt=v, sig=s, sign=g) for v in (False, True) for (s, g) in ([(16, True), (28, False)] if tier == "quick" else [(16, True), (28, False), (60, True), (76, False)])],
+         max_steps=400000,
+         bounds="stub length L a solver variable over [0, 60000] (the stub is an opaque byte string of symbolic length; its content is never inspected), verification trailer on/off, "
+         "signature sizes listed, header signing on/off: frag_len, alloc_hint, the verification-trailer offset, the 16-byte alignment and pad_length, and the three regions handed to "
+         "wrap are proved as equalities between length expressions for every L", outside="L above 60000 (frag_len is a 16-bit field; larger requests overflow it)",
+         must_reach=("symbolic length: framing arithmetic",))
+def framing_symlen(c, vt, sig, sign):
+    from vlib.api import any_of
+
+    ctx = secctx.IdealContext(c, sig)
+    auth = secctx.provider(ctx)
+    client = rc.RpcClient(auth)
+    client._sign_header = sign
+    stub, L = c.blob("stub", 0, 60000)
+    req, off = c.call(client._create_request, 7, 3, stub, verification_trailer=VT if vt else None)
+    wire = c.call(client._prepare_pdu, req, off)
+    (call,) = ctx.wrap_calls
+    (ht, h), (bt, b), (tt, t), (st, _) = call["bufs"]
+    vt_bytes = VT.pack() if vt else b""
+    n = V.blen(wire)
+    blen_ = V.blen(b)
+    p16 = t[2]
+    # body = stub | pad4 | VT | pad16 : as a statement about lengths and about where the opaque stub and the literal VT sit
+    conds = [blen_ % 16 == 0, p16 < 16, n == 24 + blen_ + 8 + sig, V.blen(h) == 24, V.blen(t) == 8]
+    head = b[:L]
+    conds.append(head == stub)
+    if vt:
+        p4 = (-L) % 4
+        vt_off = L + p4
+        conds += [b[vt_off : vt_off + len(vt_bytes)] == vt_bytes, blen_ == vt_off + len(vt_bytes) + p16, b[L:vt_off] == bytes(c.concretize(p4)), p4 < 4, vt_off % 4 == 0]
+    else:
+        conds += [blen_ == L + p16]
+    conds.append(b[blen_ - p16 :] == bytes(c.concretize(p16)))
+    # header fields: frag_len, auth_len, alloc_hint
+    conds += [h[8:10] == (n.to_bytes(2, "little") if not isinstance(n, int) else n.to_bytes(2, "little")), h[10:12] == sig.to_bytes(2, "little"),
+              h[16:20] == (blen_.to_bytes(4, "little") if not isinstance(blen_, int) else blen_.to_bytes(4, "little"))]
+    conds += [wire[:24] == h, wire[24 : 24 + blen_] == call["sealed"], wire[24 + blen_ : 32 + blen_] == t, wire[32 + blen_ :] == call["sig"]]
+    from vlib.api import all_of as _all
+
+    c.check(_all([x if isinstance(x, (bool, V.SymBool)) else bool(x) for x in conds]), "symbolic length: framing arithmetic")
+    return True
